@@ -145,6 +145,10 @@ func init() {
 		}
 		return L(I32(n), I(gn), I32(p), I(gp))
 	}
+	// diagnostic only (generator "C13x"): any int32 i, end
+	Exec["bitmap.NextOne/any"] = Exec["bitmap.NextOne/sparse"]
+	Exec["bitmap.PrevOne/any"] = Exec["bitmap.PrevOne/sparse"]
+	Register("C13x", genC13Any)
 	Exec["bitmap.Of/walk"] = func(a []V) string {
 		var bm []uint64
 		if len(a[1].L) > 0 {
@@ -663,5 +667,41 @@ func genC13w(g *Gen) {
 			key = fmt.Sprintf("OW/c%d/opt%v/%s", bits.Len(uint(len(ps))), opt != "[]", c13wCross(0, last))
 		}
 		g.Do("bitmap.Of/walk", L(Ints(ps), opt), key)
+	}
+}
+
+// genC13Any is NOT part of ./check C13: a one-off validation of the out-of-domain model theorems
+// (exact panic sets, int32 corners) against the real code:
+//   build/C13/harness-verif -prop C13x -out /tmp/x.txt && build/driver < /tmp/x.txt | cut -f1 | sort | uniq -c
+func genC13Any(g *Gen) {
+	const lo, hi = -1 << 31, 1<<31 - 1
+	vals := []int{lo, lo + 1, lo + 63, lo + 64, -4097, -129, -128, -65, -64, -63, -2, -1, 0, 1, 2, 62, 63, 64, 65, 126, 127, 128, 129,
+		190, 191, 192, 193, 255, 256, 257, 4096, hi - 64, hi - 63, hi - 1, hi}
+	var bms [][]uint64
+	for _, w := range []uint64{0, 1, 1 << 63, 1 | 1<<63, ^uint64(0), 6} {
+		bms = append(bms, []uint64{w}, []uint64{w, 0}, []uint64{0, w}, []uint64{0, w, 0}, []uint64{w, 0, 0, w})
+	}
+	bms = append(bms, []uint64{})
+	for k := 0; k < 40; k++ {
+		bm, _ := c13wBitmap(g, g.R.Range(1, 3), func(int) int { return g.R.Intn(4) }, g.R.Intn(3))
+		bms = append(bms, bm)
+	}
+	for _, bm := range bms {
+		w := c13Rle(bm)
+		n := 64 * len(bm)
+		vs := append([]int{n - 65, n - 64, n - 1, n, n + 1, n + 63, n + 64, n + 65}, vals...)
+		for _, i := range vs {
+			for _, e := range vs {
+				if i < lo || e < lo {
+					continue
+				}
+				key := "in"
+				if !(0 <= i && i <= e && e <= n && i < n) {
+					key = "out"
+				}
+				g.Do("bitmap.NextOne/any", L(w, Int(i), Int(e)), "N/"+key)
+				g.Do("bitmap.PrevOne/any", L(w, Int(i), Int(e)), "P/"+key)
+			}
+		}
 	}
 }
